@@ -6,6 +6,8 @@ cd /repo || exit 2
 git diff > /tmp/repo_wip_$$.diff
 git checkout -q -- .
 git apply $patch || { echo "PATCH DOES NOT APPLY to /repo"; git apply /tmp/repo_wip_$$.diff 2>/dev/null; exit 2; }
+cp /verif/evidence/$prop.json /tmp/ev_$$.json 2>/dev/null
 cd /verif && ./checks/run $prop $tier > /tmp/seedrun_$prop.log 2>&1; rc=$?
+cp /tmp/ev_$$.json /verif/evidence/$prop.json 2>/dev/null; rm -f /tmp/ev_$$.json
 cd /repo && git checkout -q -- . ; [ -s /tmp/repo_wip_$$.diff ] && git apply /tmp/repo_wip_$$.diff; rm -f /tmp/repo_wip_$$.diff
 echo "exit=$rc"; grep "VIOLATION\|KNOWN-FINDING\|INCONCLUSIVE\|UNCONFIRMED\|^OK" /tmp/seedrun_$prop.log | cut -c1-260 | head -12
